@@ -69,6 +69,7 @@ type FnCtx struct {
 	hasMod   bool
 	fn       *ssa.Function
 	depth    int
+	recFrame map[string]bool // rec functions whose frame axiom has been emitted in this context
 	recFams  []string // recording of families read (for spec rec signature discovery)
 	rec      bool
 	notes    []string
